@@ -313,7 +313,7 @@ def run(ctx):
             if t == "T": out.append("tg" if j == 1 else "K%d" % j)
             elif t == "s": out.append(rng.choice(["int", "unsigned", "long", "char"]))
             elif t == "d": out.append("m%d" % j if nxt == ":" or prv == "e" else rng.choice(["m%d", "a%d [ 2 ]", "* p%d", "( * f%d ) ( void )"]) % j)
-            elif t == "e": out.append(rng.choice(["1", "2 + 3", "sizeof ( int )"]))
+            elif t == "e": out.append(rng.choice(["1", "2 + 3", "4 * 2"]))     # (not `sizeof ( int )`: a `{` after it would make a compound literal)
             else: out.append(t)
         return " ".join(out) + " ;"
     ttexts = [render_t(t) for t in tstrings]
@@ -440,6 +440,7 @@ def run(ctx):
             if w == "c" and prv not in ("*", "c"): return False                                 # a qualifier elsewhere is a specifier
             if w == "b" and (nxt != "" or ";" in t[:j]): return False                           # K&R parameter declarations; text after a definition
             if w == "x" and prv in ("x", ")", "]", "3"): return False                           # juxtaposed identifiers: typedef-name guesses
+            if w == "x" and prv == "," and t[:j].count("(") > t[:j].count(")"): return False     # an identifier as a whole parameter: a typedef name
             if w == "s" and j and prv not in ("s", "typedef", "(", ","): return False            # a specifier after a declarator token
             if w == "typedef" and j and prv not in ("s", "typedef"): return False
             if w in ("s", "typedef") and prv in ("s", "typedef") and any(x not in ("s", "typedef") for x in t[:j]): return False   # a parameter has ONE specifier in the model
